@@ -4,7 +4,10 @@ package cli
 // Every hook along a path of depth d is one of {absent, returns, panics(v), Exit(n)};
 // the oracle is the 20-line chain reference of DESIGN.md D.3.
 
-import "flag"
+import (
+	"errors"
+	"flag"
+)
 
 func init() {
 	vRegister("H_flow", H_flow)
@@ -39,7 +42,14 @@ func H_flow() {
 		hooks[i].kind = vChoice("kind", 4)
 		switch hooks[i].kind {
 		case hkPanics:
-			hooks[i].val = vNondetValue("panicval")
+			switch vChoice("panicvalkind", 3) {
+			case 0:
+				hooks[i].val = vNondetValue("panicval")
+			case 1:
+				hooks[i].val = errors.New("boom") // a value that implements error
+			case 2:
+				hooks[i].val = "boom-" + vNondetString("panicstr", 1)
+			}
 		case hkExits:
 			hooks[i].code = vNondetInt("code", -1<<31, 1<<31)
 		}
